@@ -2,6 +2,7 @@
 //! Links the real `mamba` crate built from /repo's working tree (feature `verif`).
 mod coregen;
 mod json;
+mod layout;
 mod lexcheck;
 mod serve;
 mod subtype;
@@ -32,6 +33,7 @@ fn main() {
         }
         "core" => coregen::run(&args[2..]),
         "srcexpr" => coregen::run_source(),
+        "layoutparse" => layout::run(&args[2..]),
         "subtype" => subtype::run(&args[2..]),
         "seedprobe" => subtype::seedprobe(&args[2..]),
         _ => {
